@@ -14,7 +14,7 @@ from ..order import Interp
 from ..algebra_lin import linear_form
 
 FILESET = "typhon/files/fileset.py"
-EXPECT = {"C16.args": 2, "C16.keys": 4, "C16.shortcut": 4, "C16.window": 3, "C16.cover": 2, "C16.nearest": 2, "C16.single": 1, "C16.dispatch": 2}
+EXPECT = {"C16.args": 2, "C16.keys": 4, "C16.shortcut": 4, "C16.window": 3, "C16.cover": 2, "C16.nearest": 2, "C16.single": 1, "C16.dispatch": 2, "C16.fill": 1, "C16.trip": 1, "C16.helpers": 2, "C02.table": 19, "C02.doy": 4}
 
 
 def _guards(node):
@@ -504,7 +504,9 @@ def run(ctx):
         ctx.attempt(r, ctx)
     from .C03 import tree_rules
     from .C02 import rule_anchor
-    from .C02 import fill_evaluated
+    from .C02 import fill_evaluated, trip_evaluated, helpers_evaluated, rule_table, rule_year2, rule_doy_subsec, rule_endfill
+    helpers_evaluated(ctx, "C16.helpers")
+    trip_evaluated(ctx, "C16.trip", (rule_table, (ctx,), ("C02.table",)), (rule_year2, (ctx,), ("C02.year2",)), (rule_doy_subsec, (ctx,), ("C02.doy", "C02.subsec")))
     fill_evaluated(ctx, "C16.fill", (rule_anchor, (ctx, "C01.anchor"), ("C01.anchor",)))
     tree_rules(ctx, which=("pred", "partition", "descent_q", "scan_q", "early_q", "rows", "empty", "extent", "member"))
     # the caller's arguments (arrays, filter / fill dictionaries) are not modified: an in-place update makes the next call on the same objects wrong
